@@ -542,8 +542,8 @@ func TestEnum(t *testing.T) {
 		{"dedup", []Op{g, g, g}}, {"wdedup", []Op{s, s, s}},
 	}
 	if hx.Thorough() {
-		cfgs = append(cfgs, cfg{"dedup", []Op{h, h, h}}, cfg{"wdedup", []Op{s, s, g}}, cfg{"wdedup", []Op{s, g, g}},
-			cfg{"wdedup", []Op{s, g, h}}, cfg{"dedup", []Op{g, g, h}})
+		// (mixed get/has configurations use two independent queues and have > 200 000 schedules: sampled only)
+		cfgs = append(cfgs, cfg{"dedup", []Op{h, h, h}}, cfg{"wdedup", []Op{s, s, g}}, cfg{"wdedup", []Op{s, g, g}})
 	}
 	total := 0
 	job := -1
